@@ -136,7 +136,14 @@ impl Machine {
                 }
                 // Finish this instruction
                 while !self.is_instruction_done() && self.state() == State::Running {
-                    self.raw_mut().trigger_clock_edge()
+                    let before = self.raw.clone();
+                    self.raw_mut().trigger_clock_edge();
+                    // Unknown opcodes trap the microprogram in a word that jumps to
+                    // itself. Once a clock edge changes nothing at all, no later one
+                    // will, so this instruction can never finish.
+                    if self.raw == before {
+                        break;
+                    }
                 }
             }
             StepMode::Real => self.raw_mut().trigger_clock_edge(),
